@@ -61,6 +61,19 @@ def node(kind, id_, parents, k0, sp):
         return f'<rect id="{id_}" xy="{p[0]}|v {a[0]}" width="{a[1]}" height="{a[2]}" dw="{a[3]}" dh="2"/>', [(2, *GP), (6, *SZ), (8, *SZ), (3, 0, 16, 0)]
     if kind == "E":      # expression-form references to the parent's size and position
         return (f'<rect id="{id_}" xy="{{{{{p[0]}~x2 + {a[0]}}}}} {{{{{p[0]}~cy}}}}" width="{{{{{p[0]}~w}}}}" height="{{{{{p[0]}~h + 1}}}}"/>', [(2, *GP)])
+    if kind == "T":      # absolute compound geometry; the element is held back by a NON-geometry attribute that needs the parent
+        return f'<rect id="{id_}" cxy="{a[0]} {a[1]}" {size(a[2], a[3])} dw="2" data-w="{{{{{p[0]}~w}}}}"/>', [(70 + 9 * n, *POS), (-60, *POS), (6, *SZ), (8, *SZ)]
+    if kind == "Tc":     # same with a circle given by cxy + r and a text that needs the parent
+        return f'<circle id="{id_}" cxy="{a[0]} {a[1]}" r="{a[2]}" text="{{{{{p[0]}~h}}}}"/>', [(70 + 9 * n, *POS), (-60, *POS), (6, *SZ)]
+    if kind == "Tx":     # xy + longhand size + dx, held back by an rx expression
+        return f'<rect id="{id_}" xy="{a[0]} {a[1]}" width="{a[2]}" height="{a[3]}" rx="{{{{{p[0]}~w / 16}}}}"/>', [(70 + 9 * n, *POS), (-60, *POS), (6, *SZ), (8, *SZ)]
+    if kind == "PA":     # a path placed relative to the parent (rendered as a translation)
+        return f'<path id="{id_}" xy="{p[0]}|h {a[0]}" d="M 0 0 h {a[1]} v {a[2]} z"/>', [(2, *GP), (6, *SZ), (8, *SZ)]
+    if kind == "PL":     # polyline with points taken from the parent
+        return f'<polyline id="{id_}" points="{p[0]}@tl {p[0]}@br {a[0]} {a[1]}"/>', [(70, *POS), (-60, *POS)]
+    if kind == "CG":     # a group clipped by a clip path that follows the parent's geometry
+        return (f'<g id="{id_}" clip-path="url(#cp{id_})"><rect xy="{p[0]}|v {a[0]}" {size(a[1], a[2])}/></g>'
+                f'<clipPath id="cp{id_}"><rect xy="{p[0]}@tl" wh="{a[3]} 300"/></clipPath>', [(2, *GP), (6, *SZ), (8, *SZ), (4, *SZ)])
     if kind == "EZ":     # expression-form references to size scalars only (own position absolute)
         return f'<rect id="{id_}" {pos(a[0], a[1])} width="{{{{{p[0]}~w}}}}" height="{{{{{p[0]}~h * 2}}}}"/>', [(70, *POS), (-60, *POS)]
     if kind == "ER":     # expression-form reference to the radius-like scalars
@@ -75,7 +88,7 @@ def node(kind, id_, parents, k0, sp):
 
 
 N0 = ["R", "C"]
-N1 = ["H", "V", "L", "LC", "Z", "X", "S1", "U", "G", "Hd", "E", "EZ", "ER"]
+N1 = ["H", "V", "L", "LC", "Z", "X", "S1", "U", "G", "Hd", "E", "EZ", "ER", "T", "Tc", "Tx", "PA", "PL", "CG"]
 N2 = ["S2", "I2", "K", "KL", "KP"]
 SHAPES = {   # node index -> parents (indices); listed in dependency order
     "pair": [[], [0]],
@@ -127,7 +140,9 @@ def templates(tier, seed):
     for si in range(4):
         for perm in itertools.permutations(range(3)):
             tds.append(dict(fam="order", shape="chain3", kinds=["R", "H", "S1"], sp=si, perm=list(perm)))
-    for kinds, shape in ((["R", "G", "S2x"], "g-surround"), (["R", "Hd", "E"], "chain3"), (["R", "G", "S1"], "chain3"), (["C", "Hd", "ER"], "chain3"), (["R", "G", "E"], "chain3"), (["R", "Hd", "EZ"], "chain3"), (["C", "L", "EZ"], "chain3")):
+    for kinds, shape in ((["R", "G", "S2x"], "g-surround"), (["R", "Hd", "E"], "chain3"), (["R", "G", "S1"], "chain3"), (["C", "Hd", "ER"], "chain3"), (["R", "G", "E"], "chain3"), (["R", "Hd", "EZ"], "chain3"), (["C", "L", "EZ"], "chain3"),
+                         (["R", "T", "H"], "chain3"), (["R", "Tc", "L"], "chain3"), (["R", "Tx", "H"], "chain3"), (["R", "PA", "H"], "chain3"), (["R", "PA", "S1"], "chain3"),
+                         (["C", "LC", "H"], "chain3"), (["R", "CG", "H"], "chain3"), (["R", "CG", "S1"], "chain3"), (["R", "T", "S1"], "chain3"), (["R", "PL", "S1"], "chain3")):
         if shape == "g-surround":
             continue
         for si in range(4):
@@ -139,7 +154,7 @@ def templates(tier, seed):
     for bad in ("unknown-id", "cycle2", "cycle3", "self", "no-bbox", "unknown-surround", "unknown-connector", "cycle-size"):
         tds.append(dict(fam="unsat", case=bad))
     if tier == "quick":
-        keep = [t for t in tds if t["fam"] == "unsat" or t.get("kinds") in (["R", "H", "S1"], ["R", "Hd", "EZ"], ["C", "L", "EZ"], ["R", "Hd", "E"], ["R", "G", "S1"], ["C", "Hd", "ER"], ["R", "G", "E"], ["R", "R", "G", "S2"])]
+        keep = [t for t in tds if t["fam"] == "unsat" or t.get("kinds") in (["R", "H", "S1"], ["R", "T", "H"], ["R", "Tc", "L"], ["R", "Tx", "H"], ["R", "PA", "H"], ["R", "PA", "S1"], ["C", "LC", "H"], ["R", "CG", "H"], ["R", "CG", "S1"], ["R", "T", "S1"], ["R", "PL", "S1"], ["R", "Hd", "EZ"], ["C", "L", "EZ"], ["R", "Hd", "E"], ["R", "G", "S1"], ["C", "Hd", "ER"], ["R", "G", "E"], ["R", "R", "G", "S2"])]
         rest = [t for t in tds if t not in keep]
         tds = keep + sample_quota(rest, lambda t: (t["shape"],), {"pair": 20, "chain3": 50, "fan3": 40, "join3": 40, "chain4": 30, "diamond4": 30, "join-then4": 30, "mixed4": 30, "g-and-sibling": 0}, seed)
     return tds
@@ -173,6 +188,14 @@ def numeric_attr_terms(o, el):
                 res[a] = [o.tok(v)]
             except Exception:
                 res[a] = None
+        if a in res and res[a] is not None:
+            continue
+        if "8888" in v:
+            # any other attribute that carries computed numbers (pass-through data attributes, rx, transform, d ...) is compared
+            # number by number as terms; the text around the numbers is compared literally
+            from vlib.twin import split_numeric
+            skel, terms = split_numeric(o, v)
+            res[a] = [("skel", skel)] + terms
         else:
             res[a] = None
     return res
@@ -226,6 +249,9 @@ def build(td, wrong=False):
                     obls.append(Obl(f"{id_}.{a}-length", FAIL, ground=True))
                     continue
                 for j, (x, y) in enumerate(zip(a1[a], a2[a])):
+                    if isinstance(x, tuple) or isinstance(y, tuple):
+                        obls.append(Obl(f"{id_}.{a}-text", PASS if x == y else FAIL, ground=True, note=f"{x} vs {y}"))
+                        continue
                     if wrong and id_ == ids[-1] and j == 0:
                         y = plus(y, "1.0")
                     obls.append(Obl(f"{id_}.{a}" + (f"[{j}]" if len(a1[a]) > 1 else ""), ne(x, y)))
@@ -241,6 +267,6 @@ def build(td, wrong=False):
                     obls.append(Obl(f"root.{a}[{j}]", ne(x, y)))
         return obls
     # role signature for known-finding matching: a <use> taking part in a forward-reference DAG is a class of its own
-    role = "C10/forward-reference-through-use" if "U" in kinds else "C10/order/" + "-".join(kinds)
+    role = ("C10/forward-reference-through-use" if "U" in kinds else "C10/forward-reference-through-clip-path" if "CG" in kinds else "C10/order/" + "-".join(kinds))
     name = f"order/{shape}/{'-'.join(kinds)}/sp{td['sp']}/{''.join(map(str, perm))}"
     return Template(name, [doc_perm, doc_sorted], vars_, check, family=f"order-{shape}", role=role, cap=3 if has_conn else 6, explore=not has_conn)
